@@ -165,7 +165,50 @@ func registerCodecModels(e *Engine) {
 	}
 	m["(*bytes.Buffer).WriteString"] = m["(*bytes.Buffer).Write"]
 	m["(*bytes.Buffer).Bytes"] = func(x *Exec, fr *frame, a []Value) Value {
-		return &BytesV{T: bufGet(x, bufPtr(x, a[0]))}
+		p := bufPtr(x, a[0])
+		b := &BytesV{T: bufGet(x, p)}
+		// the slice aliases the buffer's memory (see the sync.Pool contract)
+		x.bufAliases[p.Cell] = append(x.bufAliases[p.Cell], b)
+		return b
+	}
+	m["(*bytes.Buffer).Reset"] = func(x *Exec, fr *frame, a []Value) Value {
+		bufSet(x, bufPtr(x, a[0]), StrC(""))
+		return nil
+	}
+	m["(*bytes.Buffer).Truncate"] = func(x *Exec, fr *frame, a []Value) Value {
+		n := x.term(a[1])
+		if !(n.IsConst() && n.I == 0) {
+			panic(abortf("(*bytes.Buffer).Truncate(n) with n != 0 is not encoded"))
+		}
+		bufSet(x, bufPtr(x, a[0]), StrC(""))
+		return nil
+	}
+	m["(*bytes.Buffer).Grow"] = func(x *Exec, fr *frame, a []Value) Value { bufPtr(x, a[0]); return nil }
+	m["(*bytes.Buffer).WriteByte"] = func(x *Exec, fr *frame, a []Value) Value {
+		panic(abortf("(*bytes.Buffer).WriteByte: byte-wise writes are not encoded"))
+	}
+	// WriteTo drains the buffer into w; what a failing writer did not take stays in the buffer
+	m["(*bytes.Buffer).WriteTo"] = func(x *Exec, fr *frame, a []Value) Value {
+		p := bufPtr(x, a[0])
+		d := bufGet(x, p)
+		if d.IsConst() && d.S == "" {
+			return TupleV{IntC(0), NilIface}
+		}
+		r := x.invoke(fr, x.force(a[1]), "Write", nil, []Value{&BytesV{T: d}}, nil)
+		var n Value = Len(d)
+		var err Value = NilIface
+		if tv, ok := r.(TupleV); ok {
+			n, err = tv[0], tv[1]
+		}
+		if isNilErr(err) {
+			bufSet(x, p, StrC(""))
+		} else {
+			// a short write: an unknown suffix of the content remains
+			rest := x.fresh("buffer.unsent", SStr)
+			x.assume(SuffixOf(rest, d))
+			bufSet(x, p, rest)
+		}
+		return TupleV{n, err}
 	}
 	m["(*bytes.Buffer).String"] = func(x *Exec, fr *frame, a []Value) Value {
 		p, ok := x.force(a[0]).(*Pointer)
